@@ -110,6 +110,30 @@ def run(prog: Program, res: Result, tier: str) -> None:
                                         if ok and okf else "_open no longer rejects an out-of-range file index with ValueError before opening files[ifile]: " +
                                         "; ".join(why or ["file_obj is not opener(files[ifile], mode)"]), construct="_open", key="_open:bounds")
 
+    # ---- R2 (cont.) the byte stride those seeks multiply by is the size of one sample, exactly -----------------------------
+    # samp_stride truncates nchans * itemsize / bitfact to an integer: for samples that are not a whole number of bytes
+    # (4-bit x 1 or 3 channels) it is too small, and every positioning seek lands on the wrong byte.  Either no such file
+    # gets this far (a guard on nchans * nbits % 8), or the stride has no truncation in it.
+    ss = prog.func(READERS, "FilReader.samp_stride")
+    rets_ss = [s_ for s_ in body_walk(ss.node) if isinstance(s_, ast.Return) and s_.value is not None]
+    truncates = any(isinstance(n_, ast.Call) and dotted(n_.func) in ("int", "np.int64", "math.floor", "np.floor") or
+                    isinstance(n_, ast.BinOp) and isinstance(n_.op, ast.FloorDiv) for r_ in rets_ss for n_ in ast.walk(r_.value))
+    fcls = prog.cls(READERS, "FilReader")
+    guard = None
+    for mname in ("__init__", "samp_stride", "read_block", "read_plan"):
+        m_ = fcls.methods.get(mname)
+        if m_ is None:
+            continue
+        for n_ in body_walk(m_.node):
+            if isinstance(n_, ast.If) and any(isinstance(b_, ast.Raise) for b_ in n_.body) and "nchans" in norm(n_.test) and \
+                    any(isinstance(x_, ast.BinOp) and isinstance(x_.op, ast.Mod) for x_ in ast.walk(n_.test)):
+                guard = n_
+    ok_ss = bool(rets_ss) and (not truncates or guard is not None)
+    (res.ok if ok_ss else res.bad)("R2", ss, rets_ss[0] if rets_ss else ss.node,
+                                   "the byte stride of a sample is exact (no truncation, or byte-misaligned samples are refused)" if ok_ss else
+                                   "samp_stride truncates nchans * itemsize / bitfact: when one sample is not a whole number of bytes (nchans * nbits % 8 != 0, "
+                                   "e.g. 4-bit x 1 channel: stride 0; 4-bit x 3 channels: stride 1) every seek to start * samp_stride lands on the wrong "
+                                   "byte and read_block(start > 0) returns other samples than the ones asked for", construct="samp_stride", key="samp_stride:exact")
     # ---- R2 positioned before read --------------------------------------------------------------------
     n2 = 0
     for f in prog.module(READERS).funcs.values():
@@ -302,7 +326,7 @@ def run(prog: Program, res: Result, tier: str) -> None:
         (res.ok if verdict == "same" else res.bad)("R6", fn, fn.node, (what if verdict == "same" else f"{qual} differs from its definition: " + ("; ".join(why))[:500]),
                                                    construct=qual, key=f"{name}:definition")
     res.floor("R1", 9)
-    res.floor("R2", 3)
+    res.floor("R2", 4)
     res.floor("R3", 5)
     res.floor("R4", 3)   # fileid, cumsum, and one in-file seek (two when the first file is a separate branch)
     res.floor("R5", 2)
